@@ -1775,6 +1775,11 @@ class unregister( octets_noop ):
         ours			= self.context( path=path )
         data[ours]		= True
 
+    @staticmethod
+    def produce( data ):
+        """An UnregisterSession carries no command-specific data."""
+        return b''
+
 
 class CPF_service( dfa ):
     """Handle Service request/reply that are encoded as a CPF list.  We must deduce whether we are
